@@ -4,7 +4,7 @@ sys.path.insert(0, os.path.dirname(__file__))
 from _common import main
 import vbs_common as V
 
-BOUND = 'whole-file for loop, and header taken with next() before the loop, and a loop restarted mid-file; files of 4 records x fault position k=1..4 x 8 fault kinds (truncated record, oversized length, undecodable MTI, unknown bitmap bit, bad field length, bad typed value, bad PDS, bad ICC) x blocked/unblocked x latin_1/cp500; operator message checked through print_exception_details'
+BOUND = 'files of 260 and 1000 records with the fault at record 250 / 900; whole-file for loop, and header taken with next() before the loop, and a loop restarted mid-file; files of 4 records x fault position k=1..4 x 8 fault kinds (truncated record, oversized length, undecodable MTI, unknown bitmap bit, bad field length, bad typed value, bad PDS, bad ICC) x blocked/unblocked x latin_1/cp500; operator message checked through print_exception_details'
 
 FAULTS = ['truncated', 'oversize', 'mti', 'bitmap', 'fieldlen', 'typed', 'pds', 'icc']
 
@@ -41,7 +41,7 @@ def oracle(inp):
     k, fault, blocked, enc = inp['k'], inp['fault'], inp['blocked'], inp['enc']
     if blocked and fault == 'truncated':
         return None            # 1014 fill bytes would complete the record: covered by C09's cut files instead
-    recs = [iso8583.dumps(good_msg(i), encoding=enc) for i in range(4)]
+    recs = [iso8583.dumps(good_msg(i), encoding=enc) for i in range(inp.get('nrec', 4))]
     recs[k - 1] = damage(recs[k - 1], fault, enc)
     stream = b''
     expect_ctx = None
@@ -99,6 +99,11 @@ def oracle(inp):
 
 
 def cases(tier, rng):
+    # long files (> 16 / 64 KiB): fault far into the file
+    for fault in FAULTS:
+        for k, nrec in ((250, 260), (900, 1000)):
+            for blocked in (False, True):
+                yield {'kind': 'fault', 'k': k, 'fault': fault, 'blocked': blocked, 'enc': 'latin_1', 'nrec': nrec, 'head': 1 if k == 250 else 0}
     for fault in FAULTS:
         for k in (1, 2, 3, 4):
             for blocked in (False, True):
